@@ -5,6 +5,7 @@ package main
 // a path.
 
 import (
+	"go/constant"
 	"go/token"
 	"go/types"
 
@@ -26,7 +27,14 @@ type IG struct {
 	CondOv map[int]ssa.Value
 	Copies map[int][]int
 	// Funcs: Fn, then the helpers spliced into the graph (see inl.go).
-	Funcs []*ssa.Function
+	Funcs   []*ssa.Function
+	splices []igSplice
+}
+
+type igSplice struct {
+	call  int
+	h     *ssa.Function
+	after []int
 }
 
 // Edge identifies the K-th out-edge of instruction From (for an If: 0 = true
@@ -38,11 +46,7 @@ func newIG(m *Module, fn *ssa.Function, diverging map[*ssa.Function]bool) *IG {
 	g := &IG{M: m, Fn: fn, Idx: map[ssa.Instruction]int{}, First: map[*ssa.BasicBlock]int{}}
 	// the analysed function, then the private helpers spliced into it
 	g.Funcs = []*ssa.Function{fn}
-	type splice struct {
-		call int
-		h    *ssa.Function
-	}
-	var splices []splice
+	var splices []igSplice
 	for fi := 0; fi < len(g.Funcs); fi++ {
 		f := g.Funcs[fi]
 		for _, b := range f.Blocks {
@@ -57,7 +61,7 @@ func newIG(m *Module, fn *ssa.Function, diverging map[*ssa.Function]bool) *IG {
 				}
 				if h := m.helperOf(in); h != nil && !(diverging != nil && diverging[h]) {
 					g.Funcs = append(g.Funcs, h)
-					splices = append(splices, splice{n, h})
+					splices = append(splices, igSplice{call: n, h: h})
 				}
 			}
 		}
@@ -85,8 +89,10 @@ func newIG(m *Module, fn *ssa.Function, diverging map[*ssa.Function]bool) *IG {
 			}
 		}
 	}
-	for _, sp := range splices {
+	for i := range splices {
+		sp := &splices[i]
 		after := g.Succ[sp.call]
+		sp.after = after
 		g.Succ[sp.call] = []int{g.First[sp.h.Blocks[0]]}
 		for _, b := range sp.h.Blocks {
 			last := g.First[b] + len(b.Instrs) - 1
@@ -94,6 +100,13 @@ func newIG(m *Module, fn *ssa.Function, diverging map[*ssa.Function]bool) *IG {
 				g.Succ[last] = after
 			}
 		}
+	}
+	g.splices = splices
+	g.CondOv = map[int]ssa.Value{}
+	g.Copies = map[int][]int{}
+	if len(splices) > 0 {
+		g.computePred()
+		g.threadReturns()
 	}
 	g.threadBoolPhis()
 	g.Pred = make([][]int, len(g.Ins))
@@ -113,9 +126,199 @@ func newIG(m *Module, fn *ssa.Function, diverging map[*ssa.Function]bool) *IG {
 // corresponding successor, every other incoming edge goes to a private copy of
 // the If that tests the operand itself. The resulting graph has the same paths
 // as if the condition had been written in an if statement.
+func (g *IG) computePred() {
+	g.Pred = make([][]int, len(g.Ins))
+	for n, ss := range g.Succ {
+		for _, s := range ss {
+			g.Pred[s] = append(g.Pred[s], n)
+		}
+	}
+}
+
+// threadReturns connects each return of a spliced multi-return helper to the
+// outcome of the test the caller makes on the returned value right after the
+// call (`if err := helper(); err != nil`). For the return that yields the
+// operand r the caller's test `call op K` is the test `r op K`: it is decided
+// when r is a constant or when a fact that dominates that return decides it,
+// and is otherwise a private copy of the If that tests r. The graph then has
+// exactly the paths of the program in which the helper's body is written out
+// at the call.
+func (g *IG) threadReturns() {
+	for _, sp := range g.splices {
+		var rets []int
+		for _, b := range sp.h.Blocks {
+			last := g.First[b] + len(b.Instrs) - 1
+			if _, ok := g.Ins[last].(*inlRet); ok {
+				rets = append(rets, last)
+			}
+		}
+		call, _ := g.Ins[sp.call].(*ssa.Call)
+		if len(rets) < 2 || len(sp.after) != 1 || call == nil {
+			continue
+		}
+		resIdx := func(v ssa.Value) (int, bool) {
+			if v == ssa.Value(call) && call.Call.Signature().Results().Len() == 1 {
+				return 0, true
+			}
+			if ex, ok := v.(*ssa.Extract); ok && ex.Tuple == ssa.Value(call) {
+				return ex.Index, true
+			}
+			return 0, false
+		}
+		cur, testIf := sp.after[0], -1
+		for steps := 0; steps < 16 && cur >= 0; steps++ {
+			in := g.Ins[cur]
+			if _, isIf := in.(*ssa.If); isIf {
+				testIf = cur
+				break
+			}
+			switch x := in.(type) {
+			case *ssa.Extract, *ssa.BinOp, *ssa.Jump, *ssa.DebugRef:
+			case *ssa.UnOp:
+				if x.Op != token.NOT {
+					cur = -1
+				}
+			default:
+				cur = -1
+			}
+			if cur < 0 || len(g.Succ[cur]) != 1 {
+				cur = -1
+				break
+			}
+			cur = g.Succ[cur][0]
+		}
+		if testIf < 0 || len(g.Succ[testIf]) != 2 {
+			continue
+		}
+		cond := g.Ins[testIf].(*ssa.If).Cond
+		tT, tF := g.Succ[testIf][0], g.Succ[testIf][1]
+		for {
+			u, ok := cond.(*ssa.UnOp)
+			if !ok || u.Op != token.NOT {
+				break
+			}
+			cond = u.X
+			tT, tF = tF, tT
+		}
+		var op token.Token
+		var K ssa.Value
+		idx, isRes := 0, false
+		if b, ok := cond.(*ssa.BinOp); ok {
+			switch b.Op {
+			case token.EQL, token.NEQ, token.LSS, token.LEQ, token.GTR, token.GEQ:
+				if i, ok := resIdx(b.X); ok {
+					if _, isC := b.Y.(*ssa.Const); isC {
+						op, K, idx, isRes = b.Op, b.Y, i, true
+					}
+				} else if i, ok := resIdx(b.Y); ok {
+					if _, isC := b.X.(*ssa.Const); isC {
+						op, K, idx, isRes = swapOp(b.Op), b.X, i, true
+					}
+				}
+			}
+		} else if i, ok := resIdx(cond); ok {
+			idx, isRes = i, true
+		}
+		if !isRes {
+			continue
+		}
+		for _, rn := range rets {
+			ret := g.Ins[rn].(*inlRet).Instruction.(*ssa.Return)
+			if idx >= len(ret.Results) {
+				continue
+			}
+			r := ret.Results[idx]
+			decided, val := false, false
+			if K == nil {
+				if c, ok := constBool(r); ok {
+					decided, val = true, c
+				}
+			} else if rc, ok := r.(*ssa.Const); ok {
+				decided, val = foldConstCmp(op, rc, K.(*ssa.Const))
+			}
+			if !decided {
+				for _, f := range g.FactsAt(rn) {
+					if K == nil {
+						if f.Y == nil && f.X == r {
+							decided, val = true, f.Op == token.EQL
+						}
+						continue
+					}
+					fop, fx, fy := f.Op, f.X, f.Y
+					if fy == nil {
+						continue
+					}
+					if _, xc := fx.(*ssa.Const); xc {
+						fop, fx, fy = swapOp(fop), fy, fx
+					}
+					fk, ok := fy.(*ssa.Const)
+					if !ok || fx != r || !sameConst(fk, K.(*ssa.Const)) {
+						continue
+					}
+					if fop == op {
+						decided, val = true, true
+					} else if fop == negate(op) {
+						decided, val = true, false
+					}
+				}
+			}
+			if decided {
+				if val {
+					g.Succ[rn] = []int{tT}
+				} else {
+					g.Succ[rn] = []int{tF}
+				}
+				continue
+			}
+			n := len(g.Ins)
+			g.Ins = append(g.Ins, g.Ins[testIf])
+			g.Succ = append(g.Succ, []int{tT, tF})
+			if K == nil {
+				g.CondOv[n] = r
+			} else {
+				g.CondOv[n] = &ssa.BinOp{Op: op, X: r, Y: K}
+			}
+			g.Copies[testIf] = append(g.Copies[testIf], n)
+			g.Succ[rn] = []int{n}
+		}
+	}
+}
+
+func sameConst(a, b *ssa.Const) bool {
+	if a.Value == nil || b.Value == nil {
+		return a.Value == nil && b.Value == nil
+	}
+	return constant.Compare(a.Value, token.EQL, b.Value)
+}
+
+func foldConstCmp(op token.Token, a, b *ssa.Const) (decided, val bool) {
+	if a.Value == nil || b.Value == nil {
+		if a.Value == nil && b.Value == nil {
+			switch op {
+			case token.EQL:
+				return true, true
+			case token.NEQ:
+				return true, false
+			}
+		}
+		return false, false
+	}
+	if a.Value.Kind() != b.Value.Kind() {
+		return false, false
+	}
+	defer func() { recover() }()
+	return true, constant.Compare(a.Value, op, b.Value)
+}
+
 func (g *IG) threadBoolPhis() {
-	g.CondOv = map[int]ssa.Value{}
-	g.Copies = map[int][]int{}
+	// repeated: a copy made for an outer condition can test the phi of an
+	// inner one ((a && b) || c)
+	for round := 0; round < 3; round++ {
+		g.threadBoolPhisOnce()
+	}
+}
+
+func (g *IG) threadBoolPhisOnce() {
 	for _, f := range g.Funcs {
 		for _, b := range f.Blocks {
 			if len(b.Instrs) == 0 {
@@ -148,7 +351,7 @@ func (g *IG) threadBoolPhis() {
 				continue
 			}
 			ifi := g.Ins[orig].(*ssa.If)
-			phi, ok := ifi.Cond.(*ssa.Phi)
+			phi, ok := g.Cond(orig).(*ssa.Phi)
 			if !ok || phi.Block() != b {
 				continue
 			}
@@ -794,6 +997,49 @@ func (g *IG) flattenCase(c RetCase, blk *ssa.BasicBlock, depth int) []RetCase {
 	if depth > 3 {
 		return []RetCase{c}
 	}
+	// a value returned by a spliced multi-return helper: one case per return of
+	// the helper (single-return helpers were resolved by replaceUses)
+	for _, v := range c.Vals {
+		var call *ssa.Call
+		switch x := v.(type) {
+		case *ssa.Call:
+			call = x
+		case *ssa.Extract:
+			call, _ = x.Tuple.(*ssa.Call)
+		}
+		if call == nil {
+			continue
+		}
+		h := g.M.helperOf(call)
+		if h == nil {
+			continue
+		}
+		if _, inGraph := g.Idx[call]; !inGraph {
+			continue
+		}
+		var out []RetCase
+		for _, b := range h.Blocks {
+			last := g.First[b] + len(b.Instrs) - 1
+			ir, ok := g.Ins[last].(*inlRet)
+			if !ok {
+				continue
+			}
+			ret := ir.Instruction.(*ssa.Return)
+			nc := RetCase{Ret: c.Ret, Vals: make([]ssa.Value, len(c.Vals)), At: last}
+			for j, w := range c.Vals {
+				nc.Vals[j] = w
+				if w == ssa.Value(call) && len(ret.Results) == 1 {
+					nc.Vals[j] = ret.Results[0]
+				} else if ex, ok := w.(*ssa.Extract); ok && ex.Tuple == ssa.Value(call) && ex.Index < len(ret.Results) {
+					nc.Vals[j] = ret.Results[ex.Index]
+				}
+			}
+			out = append(out, g.flattenCase(nc, b, depth+1)...)
+		}
+		if len(out) > 0 {
+			return out
+		}
+	}
 	hasPhi := false
 	for _, v := range c.Vals {
 		if phi, ok := v.(*ssa.Phi); ok && phi.Block() == blk {
@@ -821,6 +1067,9 @@ func (g *IG) flattenCase(c RetCase, blk *ssa.BasicBlock, depth int) []RetCase {
 	return out
 }
 
+// A return case consists of the paths that pass node At (and leave it through
+// Edge when that is set) and go on to the Return.
+
 // CaseFacts returns the facts that hold in a return case.
 func (g *IG) CaseFacts(c RetCase) []Fact {
 	facts := g.FactsAt(c.At)
@@ -835,33 +1084,109 @@ func (g *IG) CaseFacts(c RetCase) []Fact {
 // CaseMustPassBefore: every path that returns through this case passes an
 // instruction satisfying pred.
 func (g *IG) CaseMustPassBefore(c RetCase, pred func(int) bool) bool {
-	// between the merge point and the return itself
-	first := g.First[g.Ins[c.Ret].Block()]
-	for n := first; n < c.Ret; n++ {
-		if pred(n) {
-			return true
-		}
-	}
-	if c.Edge == nil {
-		ok, _ := g.MustPassBefore(c.Ret, pred)
-		return ok
-	}
 	if pred(c.At) {
 		return true
 	}
-	ok, _ := g.MustPassBefore(c.At, pred)
-	if ok {
+	if ok, _ := g.MustPassBefore(c.At, pred); ok {
 		return true
 	}
-	// the case may have been flattened through intermediate merge blocks: nodes between c.At and the return block
-	return false
+	if c.At == c.Ret {
+		return false
+	}
+	// between the case's node and the return
+	from := g.Succ[c.At]
+	if c.Edge != nil {
+		from = []int{g.Succ[c.Edge.From][c.Edge.K]}
+	}
+	p := g.Path(from, nil, pred, func(n int) bool { return n == c.Ret })
+	return p == nil
 }
 
 // CaseReachedFrom: a path exists from node n to the return through this case.
 func (g *IG) CaseReachedFrom(n int, c RetCase) bool {
-	r := g.Reach(g.Succ[n], nil, nil)
-	if c.Edge == nil {
-		return r[c.Ret]
+	if n == c.At {
+		return true
 	}
-	return r[c.At] || n == c.At
+	return g.Reach(g.Succ[n], nil, nil)[c.At]
+}
+
+// ---- value cases ----
+
+// ValCase is one of the values a merged value can have, with the place whose
+// dominating facts hold when it has that value: an operand of a phi with its
+// incoming edge, or the operand of one return of a spliced multi-return helper.
+type ValCase struct {
+	Val  ssa.Value
+	At   int
+	Edge *Edge
+}
+
+// valueCases flattens phis and spliced multi-return helper calls. at is the
+// node at which v is used (the context of a value that is not a merge).
+func (g *IG) valueCases(v ssa.Value, at int) []ValCase {
+	var out []ValCase
+	var rec func(v ssa.Value, at int, e *Edge, depth int)
+	rec = func(v ssa.Value, at int, e *Edge, depth int) {
+		if depth < 4 {
+			if phi, ok := v.(*ssa.Phi); ok {
+				if _, inGraph := g.Idx[phi]; inGraph {
+					pe := g.predEdges(phi.Block())
+					for i, ev := range phi.Edges {
+						ed := pe[i]
+						rec(ev, ed.From, &ed, depth+1)
+					}
+					return
+				}
+			}
+			var call *ssa.Call
+			idx := 0
+			switch x := v.(type) {
+			case *ssa.Call:
+				call = x
+			case *ssa.Extract:
+				call, _ = x.Tuple.(*ssa.Call)
+				idx = x.Index
+			}
+			if call != nil {
+				if h := g.M.helperOf(call); h != nil {
+					if _, inGraph := g.Idx[call]; inGraph {
+						n := 0
+						for _, b := range h.Blocks {
+							last := g.First[b] + len(b.Instrs) - 1
+							if ir, ok := g.Ins[last].(*inlRet); ok {
+								ret := ir.Instruction.(*ssa.Return)
+								if idx < len(ret.Results) {
+									rec(ret.Results[idx], last, nil, depth+1)
+									n++
+								}
+							}
+						}
+						if n > 0 {
+							return
+						}
+					}
+				}
+			}
+		}
+		out = append(out, ValCase{v, at, e})
+	}
+	rec(v, at, nil, 0)
+	return out
+}
+
+// ValFacts returns the facts that hold when the value case applies.
+func (g *IG) ValFacts(c ValCase) []Fact {
+	facts := g.FactsAt(c.At)
+	if c.Edge != nil {
+		if f, ok := g.EdgeFact(c.Edge.From, c.Edge.K); ok {
+			facts = append(facts, g.expandBoolPhis([]Fact{f}, 0)...)
+		}
+	}
+	return facts
+}
+
+// isMerge: v is a phi or the value of a spliced multi-return helper.
+func (g *IG) isMerge(v ssa.Value) bool {
+	cs := g.valueCases(v, 0)
+	return len(cs) > 1 || len(cs) == 1 && cs[0].Val != v
 }
